@@ -11,8 +11,9 @@ UNITS = {}
 
 
 class Unit:
-    def __init__(self, name, props, targets, run, skeletons, expect="proved", note="", inlined=(), stubs=(), mode="proof", not_clauses=None):
+    def __init__(self, name, props, targets, run, skeletons, expect="proved", note="", inlined=(), stubs=(), mode="proof", not_clauses=None, only_clauses=None):
         self.not_clauses = dict(not_clauses or {})  # property -> obligation-name globs that are context, not clauses of it
+        self.only_clauses = dict(only_clauses or {})  # property -> the only obligation-name globs that are clauses of it
         self.mode = mode  # 'proof' (symbolic obligations) | 'bounded' (concrete contract evaluation only; never counted as proved)
         self.name = name
         self.props = list(props)
@@ -25,11 +26,11 @@ class Unit:
         self.stubs = list(stubs)  # callee contracts used instead of bodies
 
 
-def unit(name, props, targets, skeletons, expect="proved", note="", inlined=(), stubs=(), mode="proof", not_clauses=None):
+def unit(name, props, targets, skeletons, expect="proved", note="", inlined=(), stubs=(), mode="proof", not_clauses=None, only_clauses=None):
     def deco(fn):
         if name in UNITS:
             raise RuntimeError(f"duplicate unit {name}")
-        UNITS[name] = Unit(name, props, targets, fn, skeletons, expect, note, inlined, stubs, mode, not_clauses)
+        UNITS[name] = Unit(name, props, targets, fn, skeletons, expect, note, inlined, stubs, mode, not_clauses, only_clauses)
         return fn
 
     return deco
